@@ -42,6 +42,12 @@ CHECKS = {
         text="Every syntactically set-valued expression of the non-test package is consumed order-insensitively (membership, len, set algebra, sorted without a non-injective key, any/all/min/max, loops that only update pre-existing entries) and no function writes globals, module attributes, module-level objects, mutable defaults or caches; this implies independence from the hash seed and from call history for all inputs. "
              "The seed/history byte comparison is a bounded cross-check for what the syntactic typing cannot see.",
         note="Assumed: values whose type the rules cannot see are ordered; dict order is insertion order; black/ast.unparse deterministic; four call sites where a set is passed to a repo callee are assumed order-insensitive (listed in the evidence)."),
+    "C15": dict(
+        category="other", design_ref="DESIGN.md §5 C15",
+        technique="contract-based deductive verification of the split / re-assembly functions (E1 VCs over Python slice semantics, z3 strings) for the mechanism lemmas; run-time contracts over an enumerated docstring domain for the relational remainder",
+        text="PROVED for all strings: (1) in parse_docstring_into_header_args_footer the header, section and footer slices of the original concatenate to the original whenever token-start <= token-last (or either is absent), and the returned section is that slice unless the re-indent branch ran; (2) _get_token_start_idx returns an index in [-1, len]; (3) header_args_footer_to_str keeps the header as a prefix and the footer as a suffix, byte for byte. "
+             "BOUNDED only (not proved): token-start <= token-last between the two independent scanners, the returned triple, and that every header line survives conversion between the three styles (enumerated token strings and constructed docstrings). Two known findings (re-indented section; Raises: off-by-one).",
+        note="Assumed contract: _get_token_last_idx returns >= -1 and is deterministic (checked at run time over the bounded domain). E1's Python-semantics model (DESIGN §3)."),
 }
 
 NA_REASON = "check not built yet (work in progress; see DESIGN.md for the plan)"
